@@ -60,7 +60,7 @@ TAdminDelAll == Cur("AdminDelAll") /\ AdminDelAll /\ RSt(E.st)
 TCompact == Cur("Compact") /\ Compact /\ RSt(E.st)
 TLoad == Cur("Load") /\ Load(Q) /\ RSt(E.st)
 TWatchStart == Cur("WatchStart") /\ WatchStart(Q) /\ E.failed = (rst'[Q] = "closed") /\ (~E.failed => from'[Q] = E.from) /\ RSt(E.st)
-TDeliver == Cur("Deliver") /\ Deliver(Q) /\ E.evrev = from[Q] /\ RSt(E.st)
+TDeliver == Cur("Deliver") /\ Deliver(Q, E.n) /\ E.evrev = from[Q] + E.n - 1 /\ RSt(E.st)
 TWatchClose == Cur("WatchClose") /\ WatchClose(Q) /\ RSt(E.st)
 TInvalidate == Cur("Invalidate") /\ Invalidate(Q, E.k) /\ RSt(E.st)
 
